@@ -860,6 +860,19 @@ func checkC16(c *Ctx, r *Report) {
 		r.cond(okc, "R5", key, c.pos(cm.snDisp.Pos()), firstOutcome(outs), "the client swallows a (retransmitted) PUBREL without PUBCOMP: the gateway can never complete the QoS 2 exchange")
 	}
 	c.checkClientQoS2Receive(r, "R5", cm)
+	// the client's acknowledgements of the gateway's PUBLISH carry that PUBLISH's message ID (the gateway's step
+	// handlers look their transaction up by it: a PUBACK/PUBREC with another ID leaves the exchange retransmitting
+	// until its budget is spent although nothing was lost)
+	for _, ack := range []string{"Puback", "Pubrec"} {
+		found := false
+		for _, tr := range c.findSentObjects("client", cm.snSenders, pkPackets1, ack) {
+			found = true
+			c.checkFields(r, "R5", tr.Fn, tr.Obj, "client-"+strings.ToLower(ack), tr.Send.Call.(ssa.Instruction), []fieldSpec{{Path: []string{"MessageIDProperty", "messageID"}, Accept: acceptField(pkPackets1, "Publish", "MessageIDProperty", "messageID")}})
+		}
+		if !found {
+			r.undecided("R5", "client-"+strings.ToLower(ack)+".messageID", "-", "no "+strings.ToUpper(ack)+" construction found in package client")
+		}
+	}
 	// R7: the REGISTER step survives a lost REGACK: the gateway retransmits the same (name, ID) pair and the
 	// client must accept it again (explored with a symbolic registered-topics lookup)
 	for _, sc := range []struct {
